@@ -216,6 +216,10 @@ class Ctx:
         m = E.sat(z3.And([neg] + [z3.Not(k) for _, k in kz]))
         self.checks_discharged += 1
         if m is not None:
+            try:
+                info = ascii(concretize(info, m))[:300]
+            except Exception:
+                info = "<info>"
             self.candidates.append((label, self._witness(m), info))
         for kf, k in kz:
             mk = E.sat(z3.And(neg, k))
